@@ -612,17 +612,19 @@ impl PosWalk {
     fn rare_successors(&self, p: &Pos, g: &mut Game, ev: &mut Ev, route: u64) -> Result<(), Fail> {
         const HOMES: [(u8, usize); 4] = [(0, 1), (7, 0), (56, 3), (63, 2)];
         let lower = |s: u8| p.b[s as usize].to_ascii_lowercase();
-        if p.ep.is_none() && !HOMES.iter().any(|&(sq, ci)| p.cr[ci] && lower(sq) == b'r') {
+        if p.ep.is_none() && !p.cr.iter().any(|&x| x) {
             return Ok(());
         }
         for m in p.legal() {
-            let home_rook = HOMES.iter().any(|&(sq, ci)| m.to == sq && p.cr[ci] && lower(sq) == b'r' && p.is_capture(m));
+            // (any move that starts or ends on a corner while some castling right is alive: a rook of either colour
+            // arriving on, leaving or being captured on an enemy corner must touch exactly the right that lives there)
+            let home_rook = p.cr.iter().any(|&x| x) && HOMES.iter().any(|&(sq, _)| m.to == sq || m.from == sq);
             let special = m.kind == K_EP || m.kind == K_OO || m.kind == K_OOO || m.promo != 0;
             let with_ep = p.ep.is_some() && (special || m.kind == K_DOUBLE || lower(m.from) == b'k' || p.is_capture(m));
             if !(home_rook || with_ep) {
                 continue;
             }
-            ev.class(if home_rook { "successors_after_the_capture_of_a_home_rook_whose_right_is_intact" } else { "successors_of_special_moves_kings_and_captures_while_an_ep_file_is_set" });
+            ev.class(if home_rook { "successors_of_moves_touching_a_corner_while_a_castling_right_is_alive" } else { "successors_of_special_moves_kings_and_captures_while_an_ep_file_is_set" });
             let text = m.uci();
             let Some(em) = eng::find_legal(g, &text) else {
                 return Err(Fail::new("legal-move-not-offered", format!("position {} : {}", p.fen4(), text)));
@@ -965,7 +967,7 @@ impl Prop for PosWalk {
     }
 
     fn rule(&self) -> String {
-        let common = "Cases: proptest-generated walks (start = curated sane FEN or constructed random sane position with 2-32 men, castling rights and en-passant file FIDE-style or capturable; moves = picks with kind preferences capture/promotion/castle/ep/king/rook-home/double-push/check/undo resolved against the reference model's legal list; lengths 0-397) with the oracle evaluated at every position of the walk and at every legal successor of the final position (depth 1-2); about 1 walk in 250 is also observed through the real executable (C01: `rustybait perft 2 <fen> <moves>` divide against the model's divide; C02/C04/C11: `position fen … moves …` + `show` lines); at every position of a walk the successors that combine two rare features are judged as well (any capture of a home rook whose castling right is intact; every special move, double pawn step, king move and capture while an en-passant file is set); one constructed start in three carries other FEN counter fields than `0 1` (halfmove clock to 150, move number to 6000); every tier enumerates the en-passant laboratory (a pawn that has just made its double step, one or two capturers beside it, the capturing side's king anywhere within two squares of the three pawns, one enemy rook, bishop or queen anywhere - every sane placement, both colours) and the castling laboratory (king and rook(s) at home with the right(s), at most one own knight between them, one enemy queen, rook, bishop, knight or pawn anywhere - in the thorough tier a second enemy minor piece on ranks 2-4 -, both colours) and the promotion laboratory (a pawn on the seventh rank, each of the three squares in front of it empty or holding an enemy rook, knight, bishop or queen, the enemy king anywhere on the last two ranks - with the castling right whenever it stands at home beside a home rook -, the own king far away or within the three ranks below the pawn), each position with all its successors; thorough adds the exhaustive K+X v K tables. evaluations = positions compared. ";
+        let common = "Cases: proptest-generated walks (start = curated sane FEN or constructed random sane position with 2-32 men, castling rights and en-passant file FIDE-style or capturable; moves = picks with kind preferences capture/promotion/castle/ep/king/rook-home/double-push/check/undo resolved against the reference model's legal list; lengths 0-397) with the oracle evaluated at every position of the walk and at every legal successor of the final position (depth 1-2); about 1 walk in 250 is also observed through the real executable (C01: `rustybait perft 2 <fen> <moves>` divide against the model's divide; C02/C04/C11: `position fen … moves …` + `show` lines); at every position of a walk the successors that combine two rare features are judged as well (any move from or onto a corner square while a castling right is alive; every special move, double pawn step, king move and capture while an en-passant file is set); one constructed start in three carries other FEN counter fields than `0 1` (halfmove clock to 150, move number to 6000); every tier expands the four-rook family (kings and all four rooks at home, all rights: every line of four plies, five in the thorough tier) and enumerates the en-passant laboratory (a pawn that has just made its double step, one or two capturers beside it, the capturing side's king anywhere within two squares of the three pawns, one enemy rook, bishop or queen anywhere - every sane placement, both colours) and the castling laboratory (king and rook(s) at home with the right(s), at most one own knight between them, one enemy queen, rook, bishop, knight or pawn anywhere - in the thorough tier a second enemy minor piece on ranks 2-4 -, both colours) and the promotion laboratory (a pawn on the seventh rank, each of the three squares in front of it empty or holding an enemy rook, knight, bishop or queen, the enemy king anywhere on the last two ranks - with the castling right whenever it stands at home beside a home rook -, the own king far away or within the three ranks below the pawn), each position with all its successors; thorough adds the exhaustive K+X v K tables. evaluations = positions compared. ";
         let nt = match self.which {
             Which::C01 => "Non-trivial position: in check, double check, has pseudo-legal moves that expose the own king (pins), en-passant capture legal, a castling right present, pawn one step from promotion, or at most 4 men; distinct by (placement, side, rights, ep).",
             Which::C02 => "Non-trivial case: a (position, move) pair where the move is castling, en passant, a promotion, moves from or captures on a rook home square, or records an en-passant file; distinct by position and move.",
@@ -1073,6 +1075,31 @@ impl Prop for PosWalk {
                 return;
             }
         }
+        // the four-rook family: both kings and all four rooks at home with all rights, every line of four plies
+        for (k, fen) in ["r3k2r/8/8/8/8/8/8/R3K2R w KQkq - 0 1", "r3k2r/8/8/8/8/8/8/R3K2R b KQkq - 0 1"].iter().enumerate() {
+            if !ctx.owns(7000 + k as u64) {
+                continue;
+            }
+            // every position up to (depth - 1) plies below the root is judged as a case of its own (imported from
+            // text, with all its successors), so that a failure is replayed from a self-contained FEN
+            let depth = if ctx.tier == Tier::Thorough { 5 } else { 4 };
+            let mut stack: Vec<(Pos, u8)> = vec![(Pos::from_fen(fen).unwrap(), 0)];
+            let mut n = 0u64;
+            while let Some((p, d)) = stack.pop() {
+                n += 1;
+                let f6 = p.fen6();
+                if let Err(fail) = self.run_fen(&f6, ev) {
+                    report(PosCase::Fen { fen: f6 }, fail);
+                    return;
+                }
+                if d + 1 < depth {
+                    for m in p.legal() {
+                        stack.push((p.make(m), d + 1));
+                    }
+                }
+            }
+            ev.class_n("four_rook_family_positions_with_all_successors", n);
+        }
         // the castling laboratory
         {
             let mut failed: Option<(PosCase, Fail)> = None;
@@ -1116,7 +1143,7 @@ impl Prop for PosWalk {
         // exhaustive small endgames
         let tables: &[u8] = match (self.which, ctx.tier) {
             (Which::C01, Tier::Thorough) => b"QRBNPqrbnp",
-            (Which::C01, Tier::Quick) => b"Pq",
+            (Which::C01, Tier::Quick) => b"QRBNPqrbnp",
             (_, Tier::Thorough) => b"QRPqp",
             (_, Tier::Quick) => b"",
         };
